@@ -28,14 +28,14 @@ Definition isnil {A} (l : list A) : bool := match l with [] => true | _ => false
 
 (* representation suffix characters recognised by _GD_SlashDot without
    GD_CO_REPRZ: r i m a *)
-Definition is_repr_char (c : N) : bool :=
-  (c =? 114) || (c =? 105) || (c =? 109) || (c =? 97).
+Definition is_repr_char (z : bool) (c : N) : bool :=
+  (c =? 114) || (c =? 105) || (c =? 109) || (c =? 97) || (z && (c =? 122)).
 
 (* name.c:49-58: len > 2, str[len-2]=='.', str[len-1] in {r,i,m,a} *)
-Definition strip_repr (s : str) : str * option N :=
+Definition strip_repr (z : bool) (s : str) : str * option N :=
   match rev s with
   | c :: d :: x :: rest =>
-      if (d =? cDOT) && is_repr_char c then (rev (x :: rest), Some c) else (s, None)
+      if (d =? cDOT) && is_repr_char z c then (rev (x :: rest), Some c) else (s, None)
   | _ => (s, None)
   end.
 
@@ -69,14 +69,14 @@ Definition opt_str (o : option str) : str := match o with Some s => s | None => 
 (* _GD_BuildCode (name.c:363-512).  fns = fragment root namespace (NULL and ""
    behave alike here), cur = parser's current namespace ("" = NULL).
    Result: (code, offset of PPBBBBSS). *)
-Definition build_code (fns px sx cur code : str) (nons : bool) : str * nat :=
+Definition build_code (fns px sx cur code : str) (nons reprz : bool) : str * nat :=
   let '(fns1, cur1, code1) :=
     if nons then (@nil N, @nil N, code)
     else match code with
          | c :: rest => if c =? cDOT then (fns, [], rest) else (fns, cur, code)
          | [] => (fns, cur, code)
          end in
-  let '(body, repr) := if nons then (code1, None) else strip_repr code1 in
+  let '(body, repr) := if nons then (code1, None) else strip_repr reprz code1 in
   let '(aaaa, bbbb, cccc) := slashdot nons body in
   if isnil fns1 && isnil cur1 && isnil px && isnil sx then
     (* name.c:402-417: nothing to add: the code is returned unchanged *)
@@ -142,7 +142,7 @@ Definition invalid_field (s : str) (nsl : nat) (standards : N) (strict : bool) (
    the null namespace.  For a field CODE (input, alias target, /REFERENCE) a
    trailing .r/.i/.m/.a is a representation suffix; a NAME being defined has
    no representation suffix. *)
-Definition spec_code (is_name : bool) (rootns px sx cur code : str) (nons : bool) : str * nat :=
+Definition spec_code (is_name : bool) (rootns px sx cur code : str) (nons reprz : bool) : str * nat :=
   if nons then
     (* no namespaces before Standards Version 10 (6 for input codes) *)
     let '(pre, cccc) := match split_last cSLASH code with
@@ -154,7 +154,7 @@ Definition spec_code (is_name : bool) (rootns px sx cur code : str) (nons : bool
                                        else (with_dot rootns ++ with_dot cur, code)
                         | [] => (with_dot rootns ++ with_dot cur, code)
                         end in
-    let '(body, repr) := if is_name then (rel, None) else strip_repr rel in
+    let '(body, repr) := if is_name then (rel, None) else strip_repr reprz rel in
     let '(pre, cccc) := match split_last cSLASH body with
                         | Some (a, b) => (a, cSLASH :: b) | None => (body, []) end in
     let '(sub, nm) := match split_last cDOT pre with
@@ -166,7 +166,7 @@ Definition spec_code (is_name : bool) (rootns px sx cur code : str) (nons : bool
 (* the static region in which the implementation's _GD_BuildCode is known to
    coincide with the Standards' reading *)
 Definition repr_like (s : str) : bool :=
-  match strip_repr s with (_, Some _) => true | _ => false end.
+  match strip_repr false s with (_, Some _) => true | _ => false end.
 
 Definition undot (s : str) : str :=
   match s with c :: rest => if c =? cDOT then rest else s | [] => s end.
@@ -174,12 +174,12 @@ Definition undot (s : str) : str :=
 (* a namespace-qualified spelling of INDEX (x.INDEX): name.c:402 returns such
    a code unchanged when the fragment has no namespace and no affixes, where
    the Standards put INDEX in the null namespace *)
-Definition index_like (s : str) : bool :=
-  let '(body, _) := strip_repr (undot s) in
+Definition index_like (z : bool) (s : str) : bool :=
+  let '(body, _) := strip_repr z (undot s) in
   let '(aaaa, bbbb, _) := slashdot false body in
   str_eqb bbbb sINDEX && negb (isnil aaaa).
 
 (* a token usable as a NAME with identical reading on both sides *)
-Definition plain_name (s : str) : bool := negb (repr_like (undot s)) && negb (index_like s).
+Definition plain_name (s : str) : bool := negb (repr_like (undot s)) && negb (index_like false s).
 (* a token usable as a CODE with identical reading on both sides *)
-Definition plain_code (s : str) : bool := negb (index_like s).
+Definition plain_code (s : str) : bool := negb (index_like false s) && negb (index_like true s).
